@@ -863,6 +863,77 @@ func (t *tester) ephemeralFabrications(cs consensus.State, orig types.Block, bs 
 	}
 }
 
+// v2ForgedParentAfterInBlockRevision: an accepted block that revises a v2 contract is extended by a further
+// transaction on the same contract whose Parent keeps the genuine ID and state element but carries forged contract
+// fields (signed by the contract's own keys, consistent with the forged fields): a second revision, and an
+// expiration made possible only by the forged heights. The parent of every transaction must be a member.
+func (t *tester) v2ForgedParentAfterInBlockRevision(cs consensus.State, orig types.Block) {
+	if orig.V2 == nil {
+		return
+	}
+	h := cs.Index.Height + 1
+	done := 0
+	for i := range orig.V2.Transactions {
+		for _, r := range orig.V2.Transactions[i].FileContractRevisions {
+			if done >= 2 {
+				return
+			}
+			later := false
+			for j := i + 1; j < len(orig.V2.Transactions); j++ {
+				for _, r2 := range orig.V2.Transactions[j].FileContractRevisions {
+					later = later || r2.Parent.ID == r.Parent.ID
+				}
+				for _, r2 := range orig.V2.Transactions[j].FileContractResolutions {
+					later = later || r2.Parent.ID == r.Parent.ID
+				}
+			}
+			_, okR := t.c.W.Priv(r.Revision.RenterPublicKey)
+			_, okH := t.c.W.Priv(r.Revision.HostPublicKey)
+			if later || !okR || !okH || r.Revision.RevisionNumber >= types.MaxRevisionNumber-2 {
+				continue
+			}
+			standing := map[types.FileContractID]types.V2FileContract{r.Parent.ID: r.Revision}
+			type forge struct {
+				name string
+				f    func(x *types.V2FileContract)
+			}
+			forges := []forge{
+				{"renter-output-address", func(x *types.V2FileContract) { x.RenterOutput.Address[2] ^= 8 }},
+				{"host-output-value-raised", func(x *types.V2FileContract) { x.HostOutput.Value = x.HostOutput.Value.Add(types.Siacoins(1000)) }},
+				{"total-collateral", func(x *types.V2FileContract) { x.TotalCollateral = x.TotalCollateral.Add(types.NewCurrency64(1)) }},
+			}
+			for _, fg := range forges {
+				// (a) a second revision carried by the forged parent
+				parent := r.Parent.Copy()
+				fg.f(&parent.V2FileContract)
+				rev := r.Revision
+				rev.RevisionNumber++
+				txn := types.V2Transaction{FileContractRevisions: []types.V2FileContractRevision{{Parent: parent, Revision: rev}}}
+				t.c.SignV2(cs, &txn, standing)
+				blk := chaingen.CloneBlock(orig)
+				blk.V2.Transactions = append(blk.V2.Transactions, txn)
+				if err, _ := t.c.TryVariant(&blk); !chaingen.IsSealFailure(err) {
+					t.expect("v2filecontract", "forged-parent-after-genuine-revision-in-block/"+fg.name, false, "ValidateBlock/second-revision", err == nil)
+				}
+			}
+			// (b) an expiration that only the forged heights allow
+			if h > 2 && r.Parent.V2FileContract.ExpirationHeight >= h {
+				parent := r.Parent.Copy()
+				parent.V2FileContract.ProofHeight, parent.V2FileContract.ExpirationHeight = h-2, h-1
+				txn := types.V2Transaction{FileContractResolutions: []types.V2FileContractResolution{{Parent: parent, Resolution: &types.V2FileContractExpiration{}}}}
+				blk := chaingen.CloneBlock(orig)
+				blk.V2.Transactions = append(blk.V2.Transactions, txn)
+				if err, _ := t.c.TryVariant(&blk); !chaingen.IsSealFailure(err) {
+					t.expect("v2filecontract", "forged-parent-after-genuine-revision-in-block/heights-lowered", false, "ValidateBlock/expiration", err == nil)
+				}
+			}
+			// (c) a renewal-free payout grab: resolution by expiration of a forged parent whose payout is inflated
+			t.b.Count("v2_forged_parent_after_revision_tried", 1)
+			done++
+		}
+	}
+}
+
 // v1Fabrications: the same for v1 transactions, whose in-block parents are looked up by ID alone. A siacoin / siafund
 // input is appended whose ParentID no transaction created as an element of that kind: a random ID, and the ID of an
 // element of another kind sitting at the same position of the block's (v1) diff lists. The unlock conditions are
@@ -1037,6 +1108,7 @@ func run(b *harness.B) {
 		c.OnAccepted = func(cs consensus.State, orig types.Block, bs consensus.V1BlockSupplement, kinds []string) {
 			t.ephemeralFabrications(cs, orig, bs)
 			t.v1Fabrications(cs, orig)
+			t.v2ForgedParentAfterInBlockRevision(cs, orig)
 		}
 		c.OnRevert = func(ev chaingen.RevertEvent) {
 			// before the store processes the revert: elements created by the block being reverted, with their proofs valid on that branch
